@@ -131,11 +131,27 @@ def run(ctx):
             row = json.loads(lines[int(k) - 1])
             ctx.violations.append({"clause": inv, "what": "%s: vector %s spelling %s/%s flags %s tc %s" % (inv, row["v"], row["sp"], row["sched"], row["flags"], row["tc"]), "sites": [],
                                    "cls": "folded-content-length" if inv == "FoldedClOK" else "", "run": row["run"], "scenario": byname[row["run"]].text() if row["run"] in byname else ""})
+    # the Host header in depth: spec/HostPort.tla (host name, numeric port, HTP_HOSTH_INVALID), rows from real requests
+    hmc = vlib.tlc_or_die(ctx, "HostPortMC", "HostPortMC.cfg", workers=vlib.NCPU, timeout=1800, xmx="8g")
+    for inv in hmc.violated:
+        ctx.violations.append({"clause": "Model:" + inv, "what": "HostPort reference violates its own sanity property: " + hmc.out[-1200:], "sites": []})
+    ncpu = vlib.NCPU
+    ha = 3 if q else 4
+    hshards = [["exh", ha, i, ncpu] for i in range(ncpu)] + [["rand", ctx.seed * 19 + i, 1500 if q else 30000] for i in range(4)]
+    ht, hd, hbad, _ = vlib.pattern_f(ctx, "san", "fn_host", hshards, "HostPortRows", "HostPortRows.cfg", xmx="5g")
+    for v in hbad:
+        r = v.get("row") or {}
+        if isinstance(r, dict) and "hv" in r:
+            v["what"] = "%s: Host value %r -> host %r port %s HOSTH_INVALID %s" % (v["clause"], bytes(r["hv"]), r.get("host"), r.get("portn"), r.get("hosth_invalid"))
+    ctx.violations += hbad
+    total += ht; distinct += hd
     vac = None if len(vecs) == 7 * 7 * 2 * 6 * 3 * 2 and total >= len(scns) * 0.98 else "lattice size %d, %d of %d executions judged" % (len(vecs), total, len(scns))
     vlib.finish(ctx, "model_checking", {
         "states": gen.distinct, "transitions": max(gen.generated, 1), "traces_validated_against_impl": total,
         "evaluations": total, "distinct_nontrivial": distinct,
         "rule": "the complete feature lattice (7 T-E x 7 C-L x 2 versions x 6 Host x 3 target forms x padding past the repetition cap = %d vectors) x %d spellings each (field order, letter case, "
                 "separator ': ' / ':' / ':TAB' / ' : ' / ':  ', trailing space or tab, value formatting, host case) x {whole, one byte per call | random cuts}" % (len(vecs), nsp),
+        "host_rows": ht, "host_rule": "every Host value built from <= %d atoms of 19 (labels, dots, dash, underscore, colon, ports 80 65535 65536 0 080, SP TAB, [::1] [ ] x! @) + random values with labels around 63 bytes: "
+                                      "reported host name, numeric port and HTP_HOSTH_INVALID = spec/HostPort.tla" % ha,
         "samples": [vecs[5], scns[7].text()[:400]], "exhaustive": True, "exhaustive_space": "all feature vectors of FramingFlags!Vectors",
     }, assumptions=["flags and request_transfer_coding are read from the transaction after close", "E.2 reading: repeated / folded / unparseable C-L triggers are required only when no Transfer-Encoding field is present (otherwise the T-E rules decide)"], vacuous=vac)
